@@ -37,7 +37,7 @@ ASSUMPTIONS = [
     "distinct integer seeds are expected to give different screens; int-vs-sequence seeds with equal entropy are never compared",
 ]
 
-SEED_POOL = [0, 0, 1, 2, 7, 42, 12345, 2 ** 32, 2 ** 64 + 1, {"seq": [1, 2, 3]}, {"np": 0}, {"np": 77},
+SEED_POOL = [0, 0, 1, 2, 7, 42, 12345, 2 ** 32, 2 ** 64 + 1, 2 ** 60 + 1, 1790455886123456789, {"seq": [1, 2, 3]}, {"np": 0}, {"np": 77},
              {"ss": 5, "shared": True}, {"ss": 99, "shared": True}, {"ss": 5}]
 LIB_CALLS = ["optimal_grouping", "equivalent_layers", "circle", "ft2", "centre_of_gravity", "phase_covariance", "covmat", "cn2_to_r0"]
 
@@ -63,7 +63,7 @@ def _seed_key(s):
 
 def gen_noise(rng, n_actors):
     k = rng.weighted([("np_seed", 4), ("np_draw", 3), ("np_set_state", 1), ("py_seed", 1), ("py_draw", 1), ("clock", 3),
-                      ("lib", 3), ("spawn", 2), ("gc", 0.5), ("printopts", 0.5), ("np_default_rng", 1), ("numba_threads", 1.5)])
+                      ("lib", 3), ("spawn", 2), ("gc", 0.5), ("printopts", 0.5), ("np_default_rng", 1), ("numba_threads", 1.5), ("fork", 1)])
     if k == "numba_threads":
         return {"k": k, "v": rng.randint(1, 4)}
     if k in ("np_seed", "py_seed", "np_set_state", "np_default_rng"):
@@ -122,6 +122,8 @@ def gen_plan(rng, tier, index=0):
             actors.append({"kind": kind, "params": params, "seed": s1, "rows": rows, "twin_of": a, "group": g, "scribble": scrib})
         if r.chance(0.6):
             s2 = r.choice([s for s in SEED_POOL if _seed_key(s) != _seed_key(s1)] + [r.randrange(2 ** 31)])
+            if isinstance(s1, int) and r.chance(0.5):
+                s2 = s1 + r.choice([1, 2])           # a neighbouring seed (layer index added to a base seed), also for huge bases
             if _seed_key(s2) != _seed_key(s1):
                 b = len(actors)
                 actors.append({"kind": kind, "params": params, "seed": s2, "rows": rows, "twin_of": None, "group": g})
@@ -142,7 +144,9 @@ def gen_plan(rng, tier, index=0):
         while r.chance(p_noise):
             steps.append({"noise": gen_noise(r, len(actors))})
         steps.append({"a": i})
-    return {"ambient": rng.randrange(2 ** 31), "entropy": rng.randrange(2 ** 62), "numba_threads": rng.randint(1, 4), "actors": actors, "steps": steps}
+    from sim.worlds import c03
+    return {"ambient": rng.randrange(2 ** 31), "entropy": rng.randrange(2 ** 62), "numba_threads": rng.randint(1, 4),
+            "pool": {"mode": "inproc", "sched": c03.gen_sched(rng.sub("pool"))}, "actors": actors, "steps": steps}
 
 
 # ----------------------------------------------------------------------------------------------
@@ -247,7 +251,7 @@ def lib_call(name, v):
         pass
 
 
-def execute(plan, keep_log=False):
+def _execute(plan, keep_log=False):
     res = core.Result()
     log = core.EventLog(keep_log)
     screens.warm()
@@ -490,3 +494,17 @@ def simplify(plan):
                 if s["group"] == a["group"]:
                     s["rows"] = min(s["rows"], newr)
             yield c
+
+
+def execute(plan, keep_log=False):
+    """every pool or executor the library may create while this plan runs is a simulated one (thread pools under the baton
+    scheduler), so that concurrency introduced into these code paths is decided by the plan and replays"""
+    from sim import simpool
+    kern = simpool.Kernel(None, None)
+    kern.__enter__()
+    try:
+        pool = plan.get("pool") or {}
+        kern.configure(pool.get("sched"), pool.get("mode", "inproc"))
+        return _execute(plan, keep_log)
+    finally:
+        kern.__exit__(None, None, None)
